@@ -369,7 +369,7 @@ impl Family for TlsFamily {
         out.into_iter().map(|s| serde_json::to_value(s).unwrap()).collect()
     }
     fn watchdog_ms(&self) -> u64 {
-        120_000
+        60_000
     }
     fn exhaustive_note(&self, _p: &str, tier: Tier) -> Option<String> {
         Some(format!("identity matrix: 16 pairings = client {{trusted CA, other CA, self-signed, none}} x server {{trusted CA, other CA, trusted CA presenting a full-chain file that also carries the other CA, other CA presenting its own full chain}}; every pairing run under {} seeded network schedules, with the refused peer played by the library client and by a raw quinn client, a third of them with the certificate set renewed in place", if tier == Tier::Quick { 20 } else { 1600 }))
